@@ -119,6 +119,12 @@ extern "C" int harness_main()
 		acc.async_accept(srv, [&](error_code const& e) { if (!e) { srv.non_blocking(true); read_more(); } });
 		cli.open(tcp::v4(), ec);
 		cli.async_connect(tcp::endpoint(BA, 7000), [&](error_code const& e) { if (!e) { cli.non_blocking(true); write_more(); } });
+		// a further datagram at a virtual time that is not a whole number of milliseconds (1.234567 ms), in between
+		// the TCP records: the sub-second part of a UDP record's timestamp is in microseconds
+		asio::high_resolution_timer udp_timer(tios);
+		static unsigned char const late_byte[1] = {0x5a};
+		udp_timer.expires_after(duration(1234567));
+		udp_timer.async_wait([&](error_code const&) { error_code e2; ua.send_to(asio::buffer(late_byte, 1), udp::endpoint(BA, 5001), 0, e2); });
 		s.run();
 		tcp_sport[0] = 0; // ports are read from the probe records
 		vp_log(1, written, received, eof);
